@@ -201,6 +201,16 @@ mtbl_reader_init_fd(int fd, const struct mtbl_reader_options *opt)
 			return NULL;
 		}
 	}
+	/*
+	 * The index block (length prefix, checksum and contents) must lie
+	 * entirely between the index block offset and the metadata block.
+	 */
+	uint64_t index_avail = r->len_data - MTBL_METADATA_SIZE - r->m.index_block_offset;
+	uint64_t index_hdr_len = index_len_len + sizeof(uint32_t);
+	if (index_hdr_len > index_avail || index_len > index_avail - index_hdr_len) {
+		mtbl_reader_destroy(&r);
+		return (NULL);
+	}
 	index_data = r->data + r->m.index_block_offset + index_len_len + sizeof(uint32_t);
 	if (r->opt.verify_checksums) {
 		uint32_t index_crc, calc_crc;
